@@ -1,6 +1,6 @@
 (* C07 — xflate.Reader is a faithful ReadSeeker. Model: XFlate/Reader.v
    (the code after repairs D1, D2). *)
-From V Require Import Base.Prelude XFlate.Index XFlate.Reader XFlate.Thms XFlate.Witness.
+From V Require Import Base.Prelude XFlate.Index XFlate.Search XFlate.Reader XFlate.Thms XFlate.Witness XFlate.Refine XFlate.RefineCheck.
 
 (* a zero-length Read returns at once, delivers nothing, changes nothing *)
 Theorem xr_read_zero_prompt : forall s, read s 0 = (([], r_err s), s).
@@ -40,3 +40,43 @@ Print Assumptions xr_D1_prefix_refuted.
 Theorem xr_D1_repaired : run_with seek = Some [102; 103; 104].
 Proof. exact D1_fixed. Qed.
 Print Assumptions xr_D1_repaired.
+
+(* THE PROPERTY, over all histories. For every byte string the Reader opens and whose
+   record table is honest for [content] - sorted, and each delimited chunk decompresses,
+   through the Reader's own chunk decoder, to its slice of [content] with matching sizes and
+   sync marker (a decidable statement, [honestb]) - EVERY sequence of Seek (any offset, any
+   whence, valid or not), Read (any length, zero included) and Close calls produces exactly
+   the observations of a ReadSeeker over [content]: [sp_run] is that specification (position,
+   sticky io.EOF exactly at the end, EInvalid with the position unchanged for refused seeks,
+   everything refused after Close). *)
+Theorem xr_refines_readseeker_all_histories : forall data content s1,
+  open_reader data = inr s1 ->
+  honest data (r_recs s1) content ->
+  forall ops, fst (rrun s1 ops) = fst (sp_run content (mkSp 0 None) ops).
+Proof. exact xflate_reader_refines_readseeker. Qed.
+Print Assumptions xr_refines_readseeker_all_histories.
+
+(* the same with the hypothesis as a computation; the harness evaluates [honest_stream]
+   (extracted) on every stream the real Writer produced for this check *)
+Theorem xr_refines_readseeker_decidable : forall data content,
+  honest_stream data content = true ->
+  exists s1, open_reader data = inr s1 /\
+    forall ops, fst (rrun s1 ops) = fst (sp_run content (mkSp 0 None) ops).
+Proof. exact honest_stream_refines. Qed.
+Print Assumptions xr_refines_readseeker_decidable.
+
+(* the hypothesis is satisfiable: the three-chunk witness stream written by the real Writer *)
+Theorem xr_refinement_not_vacuous : honest_stream w_stream w_plain = true.
+Proof. exact w_stream_honest. Qed.
+Print Assumptions xr_refinement_not_vacuous.
+
+(* Seek uses index.Search; the binary search as written returns the number of records
+   that start at or before the target, on every sorted table *)
+Theorem index_search_correct : forall T pos,
+  sorted_ro T ->
+  let ri := search T pos in
+  (0 <= ri <= zlen T)%Z /\
+  (ri = 0%Z \/ (RO T (ri - 1) <= pos)%Z) /\
+  (ri = zlen T \/ (pos < RO T ri)%Z).
+Proof. exact search_spec. Qed.
+Print Assumptions index_search_correct.
